@@ -323,11 +323,25 @@ def _ref_src(base, spec, r, var):
     fac = f'{base}.{pk}.{a["kind"]}'
     if r['level'] == 'alg':
         return f'dawgie.ALG_REF({fac}, {var})'
-    item = f'{var}.state_vectors()[{r["sv"]}]'
+    pos = r['sv']
+    if a.get('scratch') is not None and pos >= a['scratch'] % (
+            len(a['svs']) + 1):
+        pos += 1  # an extra (empty) state vector sits in front of it
+    item = f'{var}.state_vectors()[{pos}]'
     if r['level'] == 'sv':
         return f'dawgie.SV_REF({fac}, {var}, {item})'
     vn = a['svs'][r['sv']]['vals'][r['val']]['name']
     return f'dawgie.V_REF({fac}, {var}, {item}, {vn!r})'
+
+
+def _sv_list(i, a):
+    '''constructor calls of the algorithm's state vectors; a['scratch'] = k
+    puts a state vector that is empty until the algorithm has run (nothing is
+    persisted for it) in front of the k-th declared one'''
+    out = [f'SV_{i}_{j}()' for j in range(len(a['svs']))]
+    if a.get('scratch') is not None:
+        out.insert(a['scratch'] % (len(out) + 1), 'SV_scratch()')
+    return out
 
 
 def sources(spec, base, viol=None):
@@ -441,7 +455,7 @@ def sources(spec, base, viol=None):
                 '        self._version_ = dawgie.VERSION({}, {}, {})'.format(*a['ver']),
                 '        self._svs = [{}]'.format(
                     '' if hit('no-svs', alg=i) else
-                    ', '.join(f'SV_{i}_{j}()' for j in range(len(a['svs'])))
+                    ', '.join(_sv_list(i, a))
                 ),
                 '        self._deps = None',
                 '        self._fbs = None',
@@ -631,6 +645,18 @@ _BAD_REF = {
     'ref-missing-alg': 'dawgie.SV_REF({fac}, Alg_bogus(), SV_bogus())',
 }
 _BOGUS = [
+    '',
+    'class SV_scratch(dawgie.StateVector):',
+    '    def __init__(self):',
+    '        dawgie.StateVector.__init__(self)',
+    '        self._version_ = dawgie.VERSION(1, 0, 0)',
+    '',
+    '    def name(self):',
+    "        return 'scratch'",
+    '',
+    '    def view(self, caller, visitor):',
+    '        return',
+    '',
     '',
     'class V_bogus(dawgie.Value):',
     '    def __init__(self):',
